@@ -732,6 +732,28 @@ func run(r *Rng, tier string, n int) {
 			}
 		}
 	}
+	// (9b) APL RDATA (RFC 3123): every address family 0..3, prefix lengths around the family's width, the N bit,
+	// every AFDLENGTH 0..40 with exactly that many, fewer and more octets behind it
+	for _, fam := range []int{0, 1, 2, 3} {
+		for _, prefix := range []int{0, 1, 8, 31, 32, 33, 64, 127, 128, 129, 255} {
+			for afd := 0; afd <= 40; afd++ {
+				for _, neg := range []int{0, 0x80} {
+					for _, have := range []int{afd, afd - 1, afd + 3} {
+						if have < 0 {
+							continue
+						}
+						rd := []byte{0, byte(fam), byte(prefix), byte(afd | neg)}
+						for i := 0; i < have; i++ {
+							rd = append(rd, byte(0x11+i))
+						}
+						w := []byte{0, 3, 0x80, 0, 0, 0, 0, 1, 0, 0, 0, 0, 0, 0, 42, 0, 1, 0, 0, 0, 0, byte(len(rd) >> 8), byte(len(rd))}
+						w = append(w, rd...)
+						hostile(w, false, "apl-sweep")
+					}
+				}
+			}
+		}
+	}
 	// (10) a private-use type registered with PrivateHandle: records of it with RDLENGTH 0, 1 and more, alone and
 	// among others: accepted values can be printed, measured, copied and re-packed
 	{
